@@ -107,6 +107,62 @@ const STD_CALLS: &[&str] = &[
     "a | in 1..5", "a | as int", "tuple_every [a > 1, b > 1]",
 ];
 
+/// expression kinds carrying a column (§) that is used nowhere else
+const CARRIERS: &[&str] = &[
+    "a | in [§, 5]",
+    "case [§ > 1 => 1, true => 0]",
+    "case [a > 1 => §, true => 0]",
+    "s\"COALESCE({§}, 0)\"",
+    "f\"{§}-x\"",
+    "a + (§ * 2)",
+    "math.abs §",
+    "math.pow § 2",
+    "§ ?? 0",
+    "a | in §..5",
+    "§ | as int",
+    "-§",
+    "a == §",
+    "tuple_every [a > 1, § > 1]",
+];
+/// prefixes after which the rest of the pipeline needs (or does not need) a sub-query; all expose a, b, c
+const CUTS: &[&str] = &[
+    "from t | select {a, b, d}",
+    "from t | select {a, b, d} | sort a | take 10",
+    "from t | select {a, b, d} | group {a, b, d} (take 1)",
+    "from t | group {a, b} (aggregate {d = sum d})",
+    "from t | select {a, b, d} | derive {r = rank a} | filter r < 3",
+    "from t | join u (==a) | select {t.a, t.b, d = u.d} | take 5",
+    "let q = (from t | select {a, b, d} | sort d | take 10)\nfrom q",
+    "from t | select {a, b, d} | append (from t | select {a, b, d}) | take 7",
+];
+/// where the carrier (¤) is used; only `a` (and the carrier's value) is read otherwise
+const USES: &[&str] = &[
+    "filter (¤) != null | select {a}",
+    "derive {z = (¤)} | select {a, z}",
+    "sort {(¤)} | select {a}",
+    "group {a} (aggregate {m = max (¤)})",
+    "select {a, z = (¤)} | take 3 | filter z != null",
+    "derive {w = sum (¤)} | filter w != null | select {a}",
+];
+
+/// every carrier × cut × use, for the two columns that are not otherwise read
+fn carrier_products() -> Vec<String> {
+    let mut v = vec![];
+    for cut in CUTS {
+        for car in CARRIERS {
+            for u in USES {
+                for col in ["b", "d"] {
+                    if col == "d" && !(car.contains("in [") || car.contains("case [§")) {
+                        continue;
+                    }
+                    v.push(format!("{cut} | {}", u.replace('¤', &car.replace('§', col))));
+                }
+            }
+        }
+    }
+    v
+}
+
 fn sources(tier: Tier) -> Vec<(String, J)> {
     let cfg = GenCfg {
         depth: 2,
@@ -118,6 +174,9 @@ fn sources(tier: Tier) -> Vec<(String, J)> {
     let mut v: Vec<(String, J)> = progs.iter().map(|(p, ch, _)| (pr_program(p), json!({"driver":"AP","choices": ch}))).collect();
     for s in EXTRA {
         v.push((s.to_string(), json!({"driver":"extra"})));
+    }
+    for s in carrier_products() {
+        v.push((s, json!({"driver":"carrier×cut×use"})));
     }
     for c in STD_CALLS {
         v.push((format!("from t | select {{x = ({c})}}"), json!({"driver":"std-call"})));
@@ -230,6 +289,16 @@ fn cause(key: &str, d: &str, msg: &str, sql: &str, src: &str) -> String {
     }
     if key == "unknown-column-in-fully-known-select" && d == "mssql" && (msg.contains("`true`") || msg.contains("`false`")) {
         return "boolean-literal-emitted-for-mssql".into();
+    }
+    // T-SQL has no boolean values: a comparison cannot be a projected item (`SELECT a = b AS z` is alias syntax there)
+    if key == "does-not-parse" && d == "mssql" && msg.contains("found: AS") && {
+        let up = sql.to_uppercase();
+        up.split(" AS ").any(|item| {
+            let tail: String = item.chars().rev().take(40).collect::<String>().chars().rev().collect();
+            [" = ", " <> ", " < ", " > ", " <= ", " >= ", " IN (", " BETWEEN ", " IS NULL", " IS NOT NULL", " LIKE "].iter().any(|op| tail.contains(op))
+        })
+    } {
+        return "mssql-boolean-expression-as-projected-item".into();
     }
     format!("{key}:{d}")
 }
